@@ -363,6 +363,40 @@ func main() {
 		ops = append(ops, mrun.Op{K: "get", Ls: mk(order[live-1])}, mrun.Op{K: "remove", Ls: mk(order[live-1])})
 		run(c, ops, "burst")
 	}
+	// label values as raw log bytes: tuples that differ only in bytes that are not
+	// valid UTF-8 (Latin-1 text), or in such a byte versus U+FFFD, with and without
+	// the separator and the escape character next to them
+	rawU := map[int][][]string{
+		1: {{"caf\xe9"}, {"caf\xe8"}, {"\xff"}, {"\ufffd"}, {"a-\xe9"}, {"a-\xe8"}, {"b\\\xe9"}, {"b\\\xe8"}},
+		2: {{"x", "\xe9"}, {"x", "\xe8"}, {"\xc3", "\xa9"}, {"\xc3\xa9", ""}, {"y-\xfe", "z"}, {"y-\xff", "z"}},
+	}
+	nraw := 40
+	if a.Thorough() {
+		nraw = 600
+	}
+	for i := 0; i < nraw; i++ {
+		c := cfgs[i%2] // counter/int arity 1, gauge/int arity 2
+		u := rawU[c.arity]
+		var ops []mrun.Op
+		for j, n := 0, 6+rng.Intn(14); j < n; j++ {
+			ls := vlib.Qs(vlib.Pick(rng, u))
+			switch rng.Intn(7) {
+			case 0:
+				ops = append(ops, mrun.Op{K: "get", Ls: ls})
+			case 1, 2:
+				ops = append(ops, mrun.Op{K: "set", Ls: ls, V: val(c.ty, rng, j), T: int64(1000 + j)})
+			case 3:
+				ops = append(ops, mrun.Op{K: "inc", Ls: ls, D: 1, T: int64(2000 + j)})
+			case 4:
+				ops = append(ops, mrun.Op{K: "remove", Ls: ls})
+			case 5:
+				ops = append(ops, mrun.Op{K: "expire", Ls: ls, E: int64(1 + rng.Intn(50))})
+			case 6:
+				ops = append(ops, mrun.Op{K: "emit"})
+			}
+		}
+		run(c, ops, "raw-bytes")
+	}
 	// population waves: above, below and above a size threshold again, new label
 	// sets created in every phase, then every label set ever used is touched
 	nwv := 8
